@@ -53,6 +53,19 @@ def main():
     mods = ["pyscsi"]
     for m in pkgutil.walk_packages(pyscsi.__path__, "pyscsi."):
         mods.append(m.name)
+    # every module file of the source tree is part of a regular package (a directory without __init__.py still imports from the
+    # source tree as a namespace package, but setup.cfg's `packages = find:` leaves it out of every built or installed copy)
+    on_disk = []
+    pkgroot = os.path.dirname(pyscsi.__file__)
+    for d, subdirs, files in os.walk(pkgroot):
+        subdirs[:] = [x for x in subdirs if x != "__pycache__"]
+        for f in files:
+            if f.endswith(".py"):
+                rel = os.path.relpath(os.path.join(d, f), os.path.dirname(pkgroot))[:-3].replace(os.sep, ".")
+                on_disk.append(rel[:-9] if rel.endswith(".__init__") else rel)
+    missing = sorted(set(on_disk) - set(mods))
+    rec("import", "package-structure", [("import/not_in_a_regular_package", "module files %r are not reachable through regular packages (no __init__.py): "
+                                         "a built / installed copy of the library lacks them" % missing[:6])] if missing else [])
     for name in mods:
         v = []
         try:
